@@ -415,6 +415,13 @@ theorem C18_before_problem (d : Decl) (hd : ∀ n h, d ≠ .problem n h) :
           exact absurd rfl this
         · rename_i r hr
           exact hadd cls key nm b body
+      have hif : ∀ cls key nm b body e, (State.indThenFail {} cls key nm b body e).2 ≠ none := by
+        intro cls key nm b body e
+        unfold State.indThenFail
+        split
+        · simp [fail]
+        · rename_i r hr
+          exact hadd cls key nm b body
       cases d <;> simp only [step, stepObjective]
       case maximizeIndicator i w => simp [State.findIndicator, fail]
       case minimizeIndicator i w => simp [State.findIndicator, fail]
@@ -427,12 +434,12 @@ theorem C18_before_problem (d : Decl) (hd : ∀ n h, d ≠ .problem n h) :
       case startEarliest => apply hio
       case startLatest ts =>
         cases ts with
-        | none => simp [State.tasksOrAll, fail]
-        | some l => cases l <;> simp [State.tasksOrAll, State.tasksNamed, State.findTask, fail]
+        | none => simp only [State.tasksOrAll, List.isEmpty_nil, if_true]; apply hif
+        | some l => cases l <;> simp [State.tasksOrAll, State.tasksNamed, State.findTask, fail] <;> apply hif
       case greatestStart ts =>
         cases ts with
-        | none => simp [State.tasksOrAll, fail]
-        | some l => cases l <;> simp [State.tasksOrAll, State.tasksNamed, State.findTask, fail]
+        | none => simp only [State.tasksOrAll, List.isEmpty_nil, if_true]; apply hif
+        | some l => cases l <;> simp [State.tasksOrAll, State.tasksNamed, State.findTask, fail] <;> apply hif
       case resourceUtilization res => simp [State.resolveI, State.ownBusy, State.findWorker, State.findCumul, fail]
       case resourceCost rs =>
         cases rs with
